@@ -54,3 +54,27 @@ def default_end(begin, config, **_):
   got = [(c["begin"], c["end"], c["text"]) for c in cues]
   want = [(C.to_ms(b, mode), C.to_ms(b, mode) + 10000, "x") for mode in ("even", "up")]
   return not any(got == [w] for w in want), f"one paragraph 'x' beginning at {b} s without end: {config} output {text!r}; required cue {want[0]}"
+
+
+def shape(fmt="srt", shape="twop", mask=(), model=None, obligation=None, **_):
+  """proof tier `<fmt>.writer==reference[shape:mask]`: the counter-model's timing values on the shape, natively"""
+  from fractions import Fraction
+  import rtc.cues_common as P
+  from rtc import docgen
+  from specs import cues as C
+  from specs.isd_shapes import SHAPES
+  logging.disable(logging.CRITICAL)
+  model = model or {}
+  vals = {k: Fraction(str(model.get(k, 0) or 0)) for k in mask}
+  doc = SHAPES[shape](lambda n: vals.get(n))
+  text, err = P.run_writer(doc, fmt)
+  lines = [f"shape {shape} with {dict((k, str(v)) for k, v in vals.items())}: {docgen.describe(doc, 900)}"]
+  if err is not None:
+    return True, "\n".join(lines + [f"writer raised {err!r}"])
+  cues, problems, _ = P.read_output(fmt, text)
+  exp = C.expected_cues(doc, {"format": fmt, "line_position": False})
+  diff = C.timeline_diff(exp, [{"begin": c["begin"], "end": c["end"], "text": c["text"]} for c in cues]) if exp is not None else None
+  lines += ["writer output:\n" + text, "cues required: " + "; ".join(f"{c['begin']}-{c['end']} {c['text']!r}" for c in (exp or []))]
+  if problems or diff is not None:
+    return True, "\n".join(lines + [f"FAILED: {problems or diff}"])
+  return False, "\n".join(lines + ["output equals the reference flattening"])
